@@ -1,5 +1,5 @@
 (* Shared helpers for the correspondence drivers (trusted glue). *)
-open Gsmodel
+open Model
 
 let rec pos_of_int (n : int) : positive =
   if n = 1 then XH
